@@ -54,18 +54,18 @@ HOLD_QUICK = [
     ("PS_live_q.cfg", "repaired: liveness under fairness beside a flood and an early Fin"),
     ("PS_ascoded_q.cfg", "as coded: what holds in spite of the defects"),
 ]
-HOLD_THOROUGH = [
+HOLD_THOROUGH = [   # largest first
+    ("PS_ascoded_flood.cfg", "as coded: two streams, floods, duplicates"), ("PS_trick1.cfg", "repaired: two streams, hijacks"),
     ("PS_one.cfg", "repaired: one stream, the whole catalogue, duplicates, three heights"),
-    ("PS_gram1.cfg", "repaired: two streams, grammar 1"), ("PS_gram2.cfg", "repaired: two streams, grammar 2"),
-    ("PS_gram3.cfg", "repaired: two streams, grammar 3"), ("PS_trick1.cfg", "repaired: two streams, hijacks"),
-    ("PS_trick2.cfg", "repaired: two streams, second Fin / equivocation"), ("PS_trick3.cfg", "repaired: the same beside a future-height stream"),
-    ("PS_flood.cfg", "repaired: two streams, floods"),
-    ("PS_hon.cfg", "repaired: two honest streams"), ("PS_out0.cfg", "repaired: unbuffered outputs channel"),
-    ("PS_live1.cfg", "repaired: liveness under fairness beside grammar violations"),
+    ("PS_trick2.cfg", "repaired: two streams, second Fin / equivocation"), ("PS_ascoded_trick.cfg", "as coded: two streams, hijacks"),
+    ("PS_gram2.cfg", "repaired: two streams, grammar 2"), ("PS_hon.cfg", "repaired: two honest streams"),
+    ("PS_out0.cfg", "repaired: unbuffered outputs channel"), ("PS_gram1.cfg", "repaired: two streams, grammar 1"),
+    ("PS_trick3.cfg", "repaired: second Fin / equivocation beside a future-height stream"), ("PS_gram3.cfg", "repaired: two streams, grammar 3"),
+    ("PS_flood.cfg", "repaired: two streams, floods"), ("PS_ascoded_one.cfg", "as coded: one stream, the whole catalogue"),
+    ("PS_ascoded_out0.cfg", "as coded: unbuffered outputs channel"),
+    ("PS_live1.cfg", "repaired: liveness under fairness beside grammar violations"), ("PS_live4.cfg", "repaired: liveness beside floods"),
     ("PS_live2.cfg", "repaired: liveness beside a hijacked number 0"), ("PS_live3.cfg", "repaired: liveness beside a second Fin"),
-    ("PS_live4.cfg", "repaired: liveness beside floods"), ("PS_live5.cfg", "repaired: liveness beside floods of a past and a future height"),
-    ("PS_ascoded_one.cfg", "as coded: one stream, the whole catalogue"), ("PS_ascoded_trick.cfg", "as coded: two streams, hijacks"),
-    ("PS_ascoded_flood.cfg", "as coded: two streams, floods, duplicates"), ("PS_ascoded_out0.cfg", "as coded: unbuffered outputs channel"),
+    ("PS_live5.cfg", "repaired: liveness beside floods of a past and a future height"),
 ]
 # cfg -> (property that must fail, what it shows, in the quick tier)
 EXPECT = [
@@ -93,16 +93,23 @@ COVER_IGNORE = {"PS_one_quick.cfg": ("Init", "Unblock", "DriverTakeFrom"), "PS_a
 
 def tlc_phase(ctx):
     q = ctx.quick()
-    hold = HOLD_QUICK + ([] if q else HOLD_THOROUGH)
+    hold = HOLD_QUICK if q else HOLD_THOROUGH + HOLD_QUICK
     jobs = [(c, w, None) for c, w in hold] + [(c, "expected violation of %s (%s)" % (p, w), p) for c, p, w, inq in EXPECT if inq or not q]
-    par = 2 if q else 3
+    par = 2    # not more: every TLC may grow to its whole heap and the machine is shared
     workers = max(2, int(os.environ.get("VERIF_TLC_WORKERS", "16")) // par)
 
     def one(job):
         cfg, label, expect = job
-        return job, ctx.tlc_check(FAM, MC, cfg, workers=workers if expect is None else 2, timeout=3000,
-                                  label=label + " [" + cfg + "]", expect_violation=expect is not None,
-                                  coverage=(not q and cfg in COVER_IGNORE))
+        for attempt in (1, 2):
+            try:
+                return job, ctx.tlc_check(FAM, MC, cfg, workers=workers if expect is None else 2, timeout=3000,
+                                          label=label + " [" + cfg + "]", expect_violation=expect is not None,
+                                          coverage=(not q and cfg in COVER_IGNORE))
+            except vlib.Broken as e:
+                # a TLC that died without a result (killed by the kernel's OOM killer on the shared machine) is run once more
+                if attempt == 2 or not str(e).startswith("TLC failed on"):
+                    raise
+                vlib.log("TLC on %s died without a result, once more: %s" % (cfg, str(e).splitlines()[-1][:200] if str(e) else ""))
 
     with ThreadPoolExecutor(max_workers=par) as ex:
         results = list(ex.map(one, jobs))
